@@ -1,1 +1,633 @@
-//! c01 — harnesses not written yet.
+//! C01 — the state registry is a stack of typed maps with innermost-scope resolution.
+//! Code: mahf::state::registry::StateRegistry::{new,insert,remove,take,contains,contains_at_top,find,find_mut,try_borrow,try_get_value,set_value,get_mut,entry,into_child,into_parent}
+//! Code: mahf::state::registry::entry::{Entry,OccupiedEntry,VacantEntry}::* , mahf::state::registry::StateError
+//! Out: more than 3 scopes (4 after a push), more than 2 live state types per scope (the code is uniform in the type and recursive in the parent link); behaviour of std's HashMap itself (replaced by the hook map H1)
+//! Assume: one real operation from every registry shape (which scopes hold A) with symbolic stored values; afterwards every scope is popped and compared cell by cell with a stack-of-maps model (inductive step)
+use better_any::{Tid, TidAble};
+use derive_more::{Deref, DerefMut};
+use mahf::state::registry::{Entry, StateRegistry};
+use mahf::{CustomState, StateError};
+
+use crate::sym;
+
+#[derive(Tid, Deref, DerefMut, Default)]
+pub struct A(pub u8);
+impl CustomState<'_> for A {}
+#[derive(Tid, Deref, DerefMut, Default)]
+pub struct B(pub u8);
+impl CustomState<'_> for B {}
+
+type Model = [Option<u8>; 4];
+
+fn innermost(m: &Model, depth: usize) -> Option<usize> {
+    let mut s = depth;
+    while s > 0 {
+        s -= 1;
+        if m[s].is_some() {
+            return Some(s);
+        }
+    }
+    None
+}
+
+/// Resolving reads agree with the model. (Each lookup of an absent type walks the whole parent
+/// chain, which is what dominates the cost, so the number of resolving calls is kept small;
+/// the full read-only API is exercised by the `reads` family.)
+fn check_reads(reg: &StateRegistry<'static>, ma: &Model, mb: &Model, depth: usize, full: bool) {
+    let ia = innermost(ma, depth);
+    let ib = innermost(mb, depth);
+    assert!(reg.contains_at_top::<A>() == ma[depth - 1].is_some(), "contains_at_top looks at the innermost scope only");
+    match (reg.try_get_value::<A>(), ia) {
+        (Ok(v), Some(s)) => assert!(Some(v) == ma[s], "lookup returns the value of the innermost scope holding the type"),
+        (Err(StateError::NotFound(_)), None) => {}
+        _ => assert!(false, "an absent type is reported as NotFound, a present one is found"),
+    }
+    if full {
+        assert!(reg.contains::<A>() == ia.is_some(), "contains resolves through all scopes");
+        assert!(reg.find::<A>().is_ok() == ia.is_some(), "find succeeds iff some scope holds the type");
+        match (reg.try_borrow::<A>(), ia) {
+            (Ok(r), Some(s)) => assert!(Some(r.0) == ma[s], "try_borrow returns the innermost value"),
+            (Err(StateError::NotFound(_)), None) => {}
+            _ => assert!(false, "try_borrow: NotFound iff absent"),
+        }
+        match (reg.try_get_value::<B>(), ib) {
+            (Ok(v), Some(s)) => assert!(Some(v) == mb[s], "other types are unaffected"),
+            (Err(StateError::NotFound(_)), None) => {}
+            _ => assert!(false, "other types: NotFound iff absent"),
+        }
+    }
+}
+
+fn popped_matches(popped: &StateRegistry<'static>, ma: &Model, mb: &Model, s: usize) {
+    assert!(popped.parent().is_none(), "the popped scope is a single map");
+    assert!(popped.contains_at_top::<A>() == ma[s].is_some(), "popping a scope yields exactly the entries inserted into it (membership)");
+    if ma[s].is_some() {
+        assert!(popped.try_get_value::<A>().ok() == ma[s], "popping a scope yields exactly the entries inserted into it (value)");
+    }
+    assert!(popped.contains_at_top::<B>() == mb[s].is_some(), "popped scope: other type membership");
+    if mb[s].is_some() {
+        assert!(popped.try_get_value::<B>().ok() == mb[s], "popped scope: other type value");
+    }
+}
+
+/// Pop every scope and compare it cell by cell with the model; after the first pop the
+/// re-exposed values are also read through the resolving API.
+fn read_back(reg: StateRegistry<'static>, ma: &Model, mb: &Model, depth: usize) {
+    let mut cur = reg;
+    let mut s = depth;
+    loop {
+        s -= 1;
+        let (parent, popped) = cur.into_parent();
+        popped_matches(&popped, ma, mb, s);
+        std::mem::forget(popped);
+        match parent {
+            Some(p) => {
+                assert!(s > 0, "a parent exists exactly below a child scope");
+                cur = p;
+                if s + 1 == depth {
+                    check_reads(&cur, ma, mb, s, false);
+                }
+            }
+            None => {
+                assert!(s == 0, "the bottom scope has no parent");
+                break;
+            }
+        }
+    }
+}
+
+fn scenario(depth: usize, pres: [bool; 3], op: u8) {
+    let mut ma: Model = [None; 4];
+    let mut mb: Model = [None; 4];
+    let mut reg = StateRegistry::new();
+    let mut s = 0;
+    while s < depth {
+        if s > 0 {
+            reg = reg.into_child();
+        }
+        if pres[s] {
+            let v = sym::u8();
+            assert!(reg.insert(A(v)).is_none(), "insert into a fresh scope reports no previous value");
+            ma[s] = Some(v);
+        }
+        if s == 0 {
+            let v = sym::u8();
+            assert!(reg.insert(B(v)).is_none(), "insert B");
+            mb[0] = Some(v);
+        }
+        s += 1;
+    }
+    let top = depth - 1;
+    let mut depth = depth;
+    let x = sym::u8();
+    let ia = innermost(&ma, depth);
+    match op {
+        0 => check_reads(&reg, &ma, &mb, depth, true),
+        1 => {
+            let old = reg.insert(A(x));
+            assert!(old.map(|a| a.0) == ma[top], "insert goes to the innermost scope and reports its previous value");
+            ma[top] = Some(x);
+        }
+        2 => match (reg.remove::<A>(), ia) {
+            (Ok(a), Some(s)) => {
+                assert!(Some(a.0) == ma[s], "remove returns the innermost value");
+                ma[s] = None;
+            }
+            (Err(StateError::NotFound(_)), None) => {}
+            _ => assert!(false, "remove: NotFound iff absent"),
+        },
+        3 => {
+            let old = reg.set_value::<A>(x);
+            match ia {
+                Some(s) => {
+                    assert!(old == ma[s], "set_value returns the previous innermost value");
+                    ma[s] = Some(x);
+                }
+                None => assert!(old.is_none(), "set_value on an absent type changes nothing"),
+            }
+        }
+        4 => match (reg.get_mut::<A>(), ia) {
+            (Some(a), Some(s)) => {
+                assert!(Some(a.0) == ma[s], "get_mut resolves to the innermost scope");
+                a.0 = x;
+                ma[s] = Some(x);
+            }
+            (None, None) => {}
+            _ => assert!(false, "get_mut: None iff absent"),
+        },
+        5 => {
+            {
+                let r = reg.entry::<A>().and_modify(|mut a| a.0 = x).or_insert(A(x.wrapping_add(1)));
+                match ia {
+                    Some(_) => assert!(r.0 == x, "and_modify runs on an occupied entry"),
+                    None => assert!(r.0 == x.wrapping_add(1), "or_insert fills a vacant entry"),
+                }
+            }
+            match ia {
+                Some(s) => ma[s] = Some(x),
+                None => ma[top] = Some(x.wrapping_add(1)),
+            }
+        }
+        6 => {
+            {
+                let r = reg.entry::<A>().or_insert_with(|| A(x));
+                match ia {
+                    Some(s) => assert!(Some(r.0) == ma[s], "or_insert_with keeps an occupied entry"),
+                    None => assert!(r.0 == x, "or_insert_with fills a vacant entry"),
+                }
+            }
+            if ia.is_none() {
+                ma[top] = Some(x);
+            }
+        }
+        7 => {
+            {
+                let r = reg.entry::<A>().or_default();
+                match ia {
+                    Some(s) => assert!(Some(r.0) == ma[s], "or_default keeps an occupied entry"),
+                    None => assert!(r.0 == 0, "or_default fills a vacant entry with the default"),
+                }
+            }
+            if ia.is_none() {
+                ma[top] = Some(0);
+            }
+        }
+        8 => match reg.entry::<A>() {
+            Entry::Occupied(mut o) => match ia {
+                Some(s) => {
+                    let old = o.insert(A(x));
+                    assert!(Some(old.0) == ma[s], "OccupiedEntry::insert returns the innermost value");
+                    ma[s] = Some(x);
+                }
+                None => assert!(false, "entry is occupied only if some scope holds the type"),
+            },
+            Entry::Vacant(v) => {
+                assert!(ia.is_none(), "entry is vacant only if no scope holds the type");
+                let r = v.insert(A(x));
+                assert!(r.0 == x, "VacantEntry::insert returns the new value");
+                drop(r);
+                ma[top] = Some(x);
+            }
+        },
+        9 => match reg.entry::<A>() {
+            Entry::Occupied(o) => match ia {
+                Some(s) => {
+                    let old = o.remove();
+                    assert!(Some(old.0) == ma[s], "OccupiedEntry::remove returns the innermost value");
+                    ma[s] = None;
+                }
+                None => assert!(false, "entry is occupied only if some scope holds the type"),
+            },
+            Entry::Vacant(_) => assert!(ia.is_none(), "entry is vacant only if no scope holds the type"),
+        },
+        10 => match reg.entry::<A>() {
+            Entry::Occupied(mut o) => match ia {
+                Some(s) => {
+                    assert!(Some(o.get().0) == ma[s], "OccupiedEntry::get reads the innermost value");
+                    o.get_mut().0 = x;
+                    let mut r = o.into_mut();
+                    assert!(r.0 == x, "OccupiedEntry::get_mut writes through");
+                    r.0 = x.wrapping_add(3);
+                    drop(r);
+                    ma[s] = Some(x.wrapping_add(3));
+                }
+                None => assert!(false, "entry is occupied only if some scope holds the type"),
+            },
+            Entry::Vacant(_) => assert!(ia.is_none(), "entry is vacant only if no scope holds the type"),
+        },
+        11 => {
+            reg = reg.into_child();
+            depth += 1;
+            check_reads(&reg, &ma, &mb, depth, false);
+            assert!(reg.insert(A(x)).is_none(), "a fresh scope holds nothing: insert reports no previous value even when the type is shadowed");
+            ma[depth - 1] = Some(x);
+        }
+        _ => {
+            {
+                let _e = reg.entry::<A>().and_modify_value(|v| *v = x);
+            }
+            if let Some(s) = ia {
+                ma[s] = Some(x);
+            }
+        }
+    }
+    check_reads(&reg, &ma, &mb, depth, false);
+    read_back(reg, &ma, &mb, depth);
+}
+
+macro_rules! h {
+    ($name:ident, $depth:expr, $pres:expr, $op:expr, $uw:expr) => {
+        #[cfg_attr(kani, kani::proof)]
+        #[cfg_attr(kani, kani::unwind($uw))]
+        pub fn $name() {
+            scenario($depth, $pres, $op);
+            vcover!(true, "reached");
+        }
+    };
+}
+
+// ==== generated harness list (tools/gen/gen_c01.py) ====
+// @h tier=quick bound="depth 1, A present per scope (bottom..top) 0, B in the bottom scope; op reads; all stored values and arguments" unwind=4
+h!(h_c01_reads_d1_0, 1, [false, false, false], 0, 4);
+// @h tier=quick bound="depth 1, A present per scope (bottom..top) 0, B in the bottom scope; op insert; all stored values and arguments" unwind=4
+h!(h_c01_insert_d1_0, 1, [false, false, false], 1, 4);
+// @h tier=quick bound="depth 1, A present per scope (bottom..top) 0, B in the bottom scope; op remove; all stored values and arguments" unwind=4
+h!(h_c01_remove_d1_0, 1, [false, false, false], 2, 4);
+// @h tier=quick bound="depth 1, A present per scope (bottom..top) 0, B in the bottom scope; op set_value; all stored values and arguments" unwind=4
+h!(h_c01_set_value_d1_0, 1, [false, false, false], 3, 4);
+// @h tier=quick bound="depth 1, A present per scope (bottom..top) 0, B in the bottom scope; op get_mut; all stored values and arguments" unwind=4
+h!(h_c01_get_mut_d1_0, 1, [false, false, false], 4, 4);
+// @h tier=quick bound="depth 1, A present per scope (bottom..top) 0, B in the bottom scope; op and_modify_or_insert; all stored values and arguments" unwind=4
+h!(h_c01_and_modify_or_insert_d1_0, 1, [false, false, false], 5, 4);
+// @h tier=quick bound="depth 1, A present per scope (bottom..top) 0, B in the bottom scope; op or_insert_with; all stored values and arguments" unwind=4
+h!(h_c01_or_insert_with_d1_0, 1, [false, false, false], 6, 4);
+// @h tier=quick bound="depth 1, A present per scope (bottom..top) 0, B in the bottom scope; op or_default; all stored values and arguments" unwind=4
+h!(h_c01_or_default_d1_0, 1, [false, false, false], 7, 4);
+// @h tier=quick bound="depth 1, A present per scope (bottom..top) 0, B in the bottom scope; op entry_insert; all stored values and arguments" unwind=4
+h!(h_c01_entry_insert_d1_0, 1, [false, false, false], 8, 4);
+// @h tier=quick bound="depth 1, A present per scope (bottom..top) 0, B in the bottom scope; op entry_remove; all stored values and arguments" unwind=4
+h!(h_c01_entry_remove_d1_0, 1, [false, false, false], 9, 4);
+// @h tier=quick bound="depth 1, A present per scope (bottom..top) 0, B in the bottom scope; op entry_access; all stored values and arguments" unwind=4
+h!(h_c01_entry_access_d1_0, 1, [false, false, false], 10, 4);
+// @h tier=quick bound="depth 1, A present per scope (bottom..top) 0, B in the bottom scope; op push_scope; all stored values and arguments" unwind=4
+h!(h_c01_push_scope_d1_0, 1, [false, false, false], 11, 4);
+// @h tier=quick bound="depth 1, A present per scope (bottom..top) 0, B in the bottom scope; op and_modify_value; all stored values and arguments" unwind=4
+h!(h_c01_and_modify_value_d1_0, 1, [false, false, false], 12, 4);
+// @h tier=thorough bound="depth 1, A present per scope (bottom..top) 1, B in the bottom scope; op reads; all stored values and arguments" unwind=4
+h!(h_c01_reads_d1_1, 1, [true, false, false], 0, 4);
+// @h tier=thorough bound="depth 1, A present per scope (bottom..top) 1, B in the bottom scope; op insert; all stored values and arguments" unwind=4
+h!(h_c01_insert_d1_1, 1, [true, false, false], 1, 4);
+// @h tier=thorough bound="depth 1, A present per scope (bottom..top) 1, B in the bottom scope; op remove; all stored values and arguments" unwind=4
+h!(h_c01_remove_d1_1, 1, [true, false, false], 2, 4);
+// @h tier=thorough bound="depth 1, A present per scope (bottom..top) 1, B in the bottom scope; op set_value; all stored values and arguments" unwind=4
+h!(h_c01_set_value_d1_1, 1, [true, false, false], 3, 4);
+// @h tier=thorough bound="depth 1, A present per scope (bottom..top) 1, B in the bottom scope; op get_mut; all stored values and arguments" unwind=4
+h!(h_c01_get_mut_d1_1, 1, [true, false, false], 4, 4);
+// @h tier=thorough bound="depth 1, A present per scope (bottom..top) 1, B in the bottom scope; op and_modify_or_insert; all stored values and arguments" unwind=4
+h!(h_c01_and_modify_or_insert_d1_1, 1, [true, false, false], 5, 4);
+// @h tier=thorough bound="depth 1, A present per scope (bottom..top) 1, B in the bottom scope; op or_insert_with; all stored values and arguments" unwind=4
+h!(h_c01_or_insert_with_d1_1, 1, [true, false, false], 6, 4);
+// @h tier=thorough bound="depth 1, A present per scope (bottom..top) 1, B in the bottom scope; op or_default; all stored values and arguments" unwind=4
+h!(h_c01_or_default_d1_1, 1, [true, false, false], 7, 4);
+// @h tier=thorough bound="depth 1, A present per scope (bottom..top) 1, B in the bottom scope; op entry_insert; all stored values and arguments" unwind=4
+h!(h_c01_entry_insert_d1_1, 1, [true, false, false], 8, 4);
+// @h tier=thorough bound="depth 1, A present per scope (bottom..top) 1, B in the bottom scope; op entry_remove; all stored values and arguments" unwind=4
+h!(h_c01_entry_remove_d1_1, 1, [true, false, false], 9, 4);
+// @h tier=thorough bound="depth 1, A present per scope (bottom..top) 1, B in the bottom scope; op entry_access; all stored values and arguments" unwind=4
+h!(h_c01_entry_access_d1_1, 1, [true, false, false], 10, 4);
+// @h tier=thorough bound="depth 1, A present per scope (bottom..top) 1, B in the bottom scope; op push_scope; all stored values and arguments" unwind=4
+h!(h_c01_push_scope_d1_1, 1, [true, false, false], 11, 4);
+// @h tier=thorough bound="depth 1, A present per scope (bottom..top) 1, B in the bottom scope; op and_modify_value; all stored values and arguments" unwind=4
+h!(h_c01_and_modify_value_d1_1, 1, [true, false, false], 12, 4);
+// @h tier=thorough bound="depth 2, A present per scope (bottom..top) 00, B in the bottom scope; op reads; all stored values and arguments" unwind=5
+h!(h_c01_reads_d2_00, 2, [false, false, false], 0, 5);
+// @h tier=thorough bound="depth 2, A present per scope (bottom..top) 00, B in the bottom scope; op insert; all stored values and arguments" unwind=5
+h!(h_c01_insert_d2_00, 2, [false, false, false], 1, 5);
+// @h tier=thorough bound="depth 2, A present per scope (bottom..top) 00, B in the bottom scope; op remove; all stored values and arguments" unwind=5
+h!(h_c01_remove_d2_00, 2, [false, false, false], 2, 5);
+// @h tier=thorough bound="depth 2, A present per scope (bottom..top) 00, B in the bottom scope; op set_value; all stored values and arguments" unwind=5
+h!(h_c01_set_value_d2_00, 2, [false, false, false], 3, 5);
+// @h tier=thorough bound="depth 2, A present per scope (bottom..top) 00, B in the bottom scope; op get_mut; all stored values and arguments" unwind=5
+h!(h_c01_get_mut_d2_00, 2, [false, false, false], 4, 5);
+// @h tier=thorough bound="depth 2, A present per scope (bottom..top) 00, B in the bottom scope; op and_modify_or_insert; all stored values and arguments" unwind=5
+h!(h_c01_and_modify_or_insert_d2_00, 2, [false, false, false], 5, 5);
+// @h tier=thorough bound="depth 2, A present per scope (bottom..top) 00, B in the bottom scope; op or_insert_with; all stored values and arguments" unwind=5
+h!(h_c01_or_insert_with_d2_00, 2, [false, false, false], 6, 5);
+// @h tier=thorough bound="depth 2, A present per scope (bottom..top) 00, B in the bottom scope; op or_default; all stored values and arguments" unwind=5
+h!(h_c01_or_default_d2_00, 2, [false, false, false], 7, 5);
+// @h tier=thorough bound="depth 2, A present per scope (bottom..top) 00, B in the bottom scope; op entry_insert; all stored values and arguments" unwind=5
+h!(h_c01_entry_insert_d2_00, 2, [false, false, false], 8, 5);
+// @h tier=thorough bound="depth 2, A present per scope (bottom..top) 00, B in the bottom scope; op entry_remove; all stored values and arguments" unwind=5
+h!(h_c01_entry_remove_d2_00, 2, [false, false, false], 9, 5);
+// @h tier=thorough bound="depth 2, A present per scope (bottom..top) 00, B in the bottom scope; op entry_access; all stored values and arguments" unwind=5
+h!(h_c01_entry_access_d2_00, 2, [false, false, false], 10, 5);
+// @h tier=thorough bound="depth 2, A present per scope (bottom..top) 00, B in the bottom scope; op push_scope; all stored values and arguments" unwind=5
+h!(h_c01_push_scope_d2_00, 2, [false, false, false], 11, 5);
+// @h tier=thorough bound="depth 2, A present per scope (bottom..top) 00, B in the bottom scope; op and_modify_value; all stored values and arguments" unwind=5
+h!(h_c01_and_modify_value_d2_00, 2, [false, false, false], 12, 5);
+// @h tier=thorough bound="depth 2, A present per scope (bottom..top) 01, B in the bottom scope; op reads; all stored values and arguments" unwind=5
+h!(h_c01_reads_d2_01, 2, [false, true, false], 0, 5);
+// @h tier=thorough bound="depth 2, A present per scope (bottom..top) 01, B in the bottom scope; op insert; all stored values and arguments" unwind=5
+h!(h_c01_insert_d2_01, 2, [false, true, false], 1, 5);
+// @h tier=thorough bound="depth 2, A present per scope (bottom..top) 01, B in the bottom scope; op remove; all stored values and arguments" unwind=5
+h!(h_c01_remove_d2_01, 2, [false, true, false], 2, 5);
+// @h tier=thorough bound="depth 2, A present per scope (bottom..top) 01, B in the bottom scope; op set_value; all stored values and arguments" unwind=5
+h!(h_c01_set_value_d2_01, 2, [false, true, false], 3, 5);
+// @h tier=thorough bound="depth 2, A present per scope (bottom..top) 01, B in the bottom scope; op get_mut; all stored values and arguments" unwind=5
+h!(h_c01_get_mut_d2_01, 2, [false, true, false], 4, 5);
+// @h tier=thorough bound="depth 2, A present per scope (bottom..top) 01, B in the bottom scope; op and_modify_or_insert; all stored values and arguments" unwind=5
+h!(h_c01_and_modify_or_insert_d2_01, 2, [false, true, false], 5, 5);
+// @h tier=thorough bound="depth 2, A present per scope (bottom..top) 01, B in the bottom scope; op or_insert_with; all stored values and arguments" unwind=5
+h!(h_c01_or_insert_with_d2_01, 2, [false, true, false], 6, 5);
+// @h tier=thorough bound="depth 2, A present per scope (bottom..top) 01, B in the bottom scope; op or_default; all stored values and arguments" unwind=5
+h!(h_c01_or_default_d2_01, 2, [false, true, false], 7, 5);
+// @h tier=thorough bound="depth 2, A present per scope (bottom..top) 01, B in the bottom scope; op entry_insert; all stored values and arguments" unwind=5
+h!(h_c01_entry_insert_d2_01, 2, [false, true, false], 8, 5);
+// @h tier=thorough bound="depth 2, A present per scope (bottom..top) 01, B in the bottom scope; op entry_remove; all stored values and arguments" unwind=5
+h!(h_c01_entry_remove_d2_01, 2, [false, true, false], 9, 5);
+// @h tier=thorough bound="depth 2, A present per scope (bottom..top) 01, B in the bottom scope; op entry_access; all stored values and arguments" unwind=5
+h!(h_c01_entry_access_d2_01, 2, [false, true, false], 10, 5);
+// @h tier=thorough bound="depth 2, A present per scope (bottom..top) 01, B in the bottom scope; op push_scope; all stored values and arguments" unwind=5
+h!(h_c01_push_scope_d2_01, 2, [false, true, false], 11, 5);
+// @h tier=thorough bound="depth 2, A present per scope (bottom..top) 01, B in the bottom scope; op and_modify_value; all stored values and arguments" unwind=5
+h!(h_c01_and_modify_value_d2_01, 2, [false, true, false], 12, 5);
+// @h tier=quick bound="depth 2, A present per scope (bottom..top) 10, B in the bottom scope; op reads; all stored values and arguments" unwind=5
+h!(h_c01_reads_d2_10, 2, [true, false, false], 0, 5);
+// @h tier=quick bound="depth 2, A present per scope (bottom..top) 10, B in the bottom scope; op insert; all stored values and arguments" unwind=5
+h!(h_c01_insert_d2_10, 2, [true, false, false], 1, 5);
+// @h tier=quick bound="depth 2, A present per scope (bottom..top) 10, B in the bottom scope; op remove; all stored values and arguments" unwind=5
+h!(h_c01_remove_d2_10, 2, [true, false, false], 2, 5);
+// @h tier=quick bound="depth 2, A present per scope (bottom..top) 10, B in the bottom scope; op set_value; all stored values and arguments" unwind=5
+h!(h_c01_set_value_d2_10, 2, [true, false, false], 3, 5);
+// @h tier=quick bound="depth 2, A present per scope (bottom..top) 10, B in the bottom scope; op get_mut; all stored values and arguments" unwind=5
+h!(h_c01_get_mut_d2_10, 2, [true, false, false], 4, 5);
+// @h tier=quick bound="depth 2, A present per scope (bottom..top) 10, B in the bottom scope; op and_modify_or_insert; all stored values and arguments" unwind=5
+h!(h_c01_and_modify_or_insert_d2_10, 2, [true, false, false], 5, 5);
+// @h tier=quick bound="depth 2, A present per scope (bottom..top) 10, B in the bottom scope; op or_insert_with; all stored values and arguments" unwind=5
+h!(h_c01_or_insert_with_d2_10, 2, [true, false, false], 6, 5);
+// @h tier=quick bound="depth 2, A present per scope (bottom..top) 10, B in the bottom scope; op or_default; all stored values and arguments" unwind=5
+h!(h_c01_or_default_d2_10, 2, [true, false, false], 7, 5);
+// @h tier=quick bound="depth 2, A present per scope (bottom..top) 10, B in the bottom scope; op entry_insert; all stored values and arguments" unwind=5
+h!(h_c01_entry_insert_d2_10, 2, [true, false, false], 8, 5);
+// @h tier=quick bound="depth 2, A present per scope (bottom..top) 10, B in the bottom scope; op entry_remove; all stored values and arguments" unwind=5
+h!(h_c01_entry_remove_d2_10, 2, [true, false, false], 9, 5);
+// @h tier=quick bound="depth 2, A present per scope (bottom..top) 10, B in the bottom scope; op entry_access; all stored values and arguments" unwind=5
+h!(h_c01_entry_access_d2_10, 2, [true, false, false], 10, 5);
+// @h tier=quick bound="depth 2, A present per scope (bottom..top) 10, B in the bottom scope; op push_scope; all stored values and arguments" unwind=5
+h!(h_c01_push_scope_d2_10, 2, [true, false, false], 11, 5);
+// @h tier=quick bound="depth 2, A present per scope (bottom..top) 10, B in the bottom scope; op and_modify_value; all stored values and arguments" unwind=5
+h!(h_c01_and_modify_value_d2_10, 2, [true, false, false], 12, 5);
+// @h tier=quick bound="depth 2, A present per scope (bottom..top) 11, B in the bottom scope; op reads; all stored values and arguments" unwind=5
+h!(h_c01_reads_d2_11, 2, [true, true, false], 0, 5);
+// @h tier=quick bound="depth 2, A present per scope (bottom..top) 11, B in the bottom scope; op insert; all stored values and arguments" unwind=5
+h!(h_c01_insert_d2_11, 2, [true, true, false], 1, 5);
+// @h tier=quick bound="depth 2, A present per scope (bottom..top) 11, B in the bottom scope; op remove; all stored values and arguments" unwind=5
+h!(h_c01_remove_d2_11, 2, [true, true, false], 2, 5);
+// @h tier=quick bound="depth 2, A present per scope (bottom..top) 11, B in the bottom scope; op set_value; all stored values and arguments" unwind=5
+h!(h_c01_set_value_d2_11, 2, [true, true, false], 3, 5);
+// @h tier=quick bound="depth 2, A present per scope (bottom..top) 11, B in the bottom scope; op get_mut; all stored values and arguments" unwind=5
+h!(h_c01_get_mut_d2_11, 2, [true, true, false], 4, 5);
+// @h tier=quick bound="depth 2, A present per scope (bottom..top) 11, B in the bottom scope; op and_modify_or_insert; all stored values and arguments" unwind=5
+h!(h_c01_and_modify_or_insert_d2_11, 2, [true, true, false], 5, 5);
+// @h tier=quick bound="depth 2, A present per scope (bottom..top) 11, B in the bottom scope; op or_insert_with; all stored values and arguments" unwind=5
+h!(h_c01_or_insert_with_d2_11, 2, [true, true, false], 6, 5);
+// @h tier=quick bound="depth 2, A present per scope (bottom..top) 11, B in the bottom scope; op or_default; all stored values and arguments" unwind=5
+h!(h_c01_or_default_d2_11, 2, [true, true, false], 7, 5);
+// @h tier=quick bound="depth 2, A present per scope (bottom..top) 11, B in the bottom scope; op entry_insert; all stored values and arguments" unwind=5
+h!(h_c01_entry_insert_d2_11, 2, [true, true, false], 8, 5);
+// @h tier=quick bound="depth 2, A present per scope (bottom..top) 11, B in the bottom scope; op entry_remove; all stored values and arguments" unwind=5
+h!(h_c01_entry_remove_d2_11, 2, [true, true, false], 9, 5);
+// @h tier=quick bound="depth 2, A present per scope (bottom..top) 11, B in the bottom scope; op entry_access; all stored values and arguments" unwind=5
+h!(h_c01_entry_access_d2_11, 2, [true, true, false], 10, 5);
+// @h tier=quick bound="depth 2, A present per scope (bottom..top) 11, B in the bottom scope; op push_scope; all stored values and arguments" unwind=5
+h!(h_c01_push_scope_d2_11, 2, [true, true, false], 11, 5);
+// @h tier=quick bound="depth 2, A present per scope (bottom..top) 11, B in the bottom scope; op and_modify_value; all stored values and arguments" unwind=5
+h!(h_c01_and_modify_value_d2_11, 2, [true, true, false], 12, 5);
+// @h tier=thorough bound="depth 3, A present per scope (bottom..top) 000, B in the bottom scope; op reads; all stored values and arguments" unwind=6
+h!(h_c01_reads_d3_000, 3, [false, false, false], 0, 6);
+// @h tier=thorough bound="depth 3, A present per scope (bottom..top) 000, B in the bottom scope; op insert; all stored values and arguments" unwind=6
+h!(h_c01_insert_d3_000, 3, [false, false, false], 1, 6);
+// @h tier=thorough bound="depth 3, A present per scope (bottom..top) 000, B in the bottom scope; op remove; all stored values and arguments" unwind=6
+h!(h_c01_remove_d3_000, 3, [false, false, false], 2, 6);
+// @h tier=thorough bound="depth 3, A present per scope (bottom..top) 000, B in the bottom scope; op set_value; all stored values and arguments" unwind=6
+h!(h_c01_set_value_d3_000, 3, [false, false, false], 3, 6);
+// @h tier=thorough bound="depth 3, A present per scope (bottom..top) 000, B in the bottom scope; op get_mut; all stored values and arguments" unwind=6
+h!(h_c01_get_mut_d3_000, 3, [false, false, false], 4, 6);
+// @h tier=thorough bound="depth 3, A present per scope (bottom..top) 000, B in the bottom scope; op and_modify_or_insert; all stored values and arguments" unwind=6
+h!(h_c01_and_modify_or_insert_d3_000, 3, [false, false, false], 5, 6);
+// @h tier=thorough bound="depth 3, A present per scope (bottom..top) 000, B in the bottom scope; op or_insert_with; all stored values and arguments" unwind=6
+h!(h_c01_or_insert_with_d3_000, 3, [false, false, false], 6, 6);
+// @h tier=thorough bound="depth 3, A present per scope (bottom..top) 000, B in the bottom scope; op or_default; all stored values and arguments" unwind=6
+h!(h_c01_or_default_d3_000, 3, [false, false, false], 7, 6);
+// @h tier=thorough bound="depth 3, A present per scope (bottom..top) 000, B in the bottom scope; op entry_insert; all stored values and arguments" unwind=6
+h!(h_c01_entry_insert_d3_000, 3, [false, false, false], 8, 6);
+// @h tier=thorough bound="depth 3, A present per scope (bottom..top) 000, B in the bottom scope; op entry_remove; all stored values and arguments" unwind=6
+h!(h_c01_entry_remove_d3_000, 3, [false, false, false], 9, 6);
+// @h tier=thorough bound="depth 3, A present per scope (bottom..top) 000, B in the bottom scope; op entry_access; all stored values and arguments" unwind=6
+h!(h_c01_entry_access_d3_000, 3, [false, false, false], 10, 6);
+// @h tier=thorough bound="depth 3, A present per scope (bottom..top) 000, B in the bottom scope; op push_scope; all stored values and arguments" unwind=6
+h!(h_c01_push_scope_d3_000, 3, [false, false, false], 11, 6);
+// @h tier=thorough bound="depth 3, A present per scope (bottom..top) 000, B in the bottom scope; op and_modify_value; all stored values and arguments" unwind=6
+h!(h_c01_and_modify_value_d3_000, 3, [false, false, false], 12, 6);
+// @h tier=thorough bound="depth 3, A present per scope (bottom..top) 001, B in the bottom scope; op reads; all stored values and arguments" unwind=6
+h!(h_c01_reads_d3_001, 3, [false, false, true], 0, 6);
+// @h tier=thorough bound="depth 3, A present per scope (bottom..top) 001, B in the bottom scope; op insert; all stored values and arguments" unwind=6
+h!(h_c01_insert_d3_001, 3, [false, false, true], 1, 6);
+// @h tier=thorough bound="depth 3, A present per scope (bottom..top) 001, B in the bottom scope; op remove; all stored values and arguments" unwind=6
+h!(h_c01_remove_d3_001, 3, [false, false, true], 2, 6);
+// @h tier=thorough bound="depth 3, A present per scope (bottom..top) 001, B in the bottom scope; op set_value; all stored values and arguments" unwind=6
+h!(h_c01_set_value_d3_001, 3, [false, false, true], 3, 6);
+// @h tier=thorough bound="depth 3, A present per scope (bottom..top) 001, B in the bottom scope; op get_mut; all stored values and arguments" unwind=6
+h!(h_c01_get_mut_d3_001, 3, [false, false, true], 4, 6);
+// @h tier=thorough bound="depth 3, A present per scope (bottom..top) 001, B in the bottom scope; op and_modify_or_insert; all stored values and arguments" unwind=6
+h!(h_c01_and_modify_or_insert_d3_001, 3, [false, false, true], 5, 6);
+// @h tier=thorough bound="depth 3, A present per scope (bottom..top) 001, B in the bottom scope; op or_insert_with; all stored values and arguments" unwind=6
+h!(h_c01_or_insert_with_d3_001, 3, [false, false, true], 6, 6);
+// @h tier=thorough bound="depth 3, A present per scope (bottom..top) 001, B in the bottom scope; op or_default; all stored values and arguments" unwind=6
+h!(h_c01_or_default_d3_001, 3, [false, false, true], 7, 6);
+// @h tier=thorough bound="depth 3, A present per scope (bottom..top) 001, B in the bottom scope; op entry_insert; all stored values and arguments" unwind=6
+h!(h_c01_entry_insert_d3_001, 3, [false, false, true], 8, 6);
+// @h tier=thorough bound="depth 3, A present per scope (bottom..top) 001, B in the bottom scope; op entry_remove; all stored values and arguments" unwind=6
+h!(h_c01_entry_remove_d3_001, 3, [false, false, true], 9, 6);
+// @h tier=thorough bound="depth 3, A present per scope (bottom..top) 001, B in the bottom scope; op entry_access; all stored values and arguments" unwind=6
+h!(h_c01_entry_access_d3_001, 3, [false, false, true], 10, 6);
+// @h tier=thorough bound="depth 3, A present per scope (bottom..top) 001, B in the bottom scope; op push_scope; all stored values and arguments" unwind=6
+h!(h_c01_push_scope_d3_001, 3, [false, false, true], 11, 6);
+// @h tier=thorough bound="depth 3, A present per scope (bottom..top) 001, B in the bottom scope; op and_modify_value; all stored values and arguments" unwind=6
+h!(h_c01_and_modify_value_d3_001, 3, [false, false, true], 12, 6);
+// @h tier=thorough bound="depth 3, A present per scope (bottom..top) 010, B in the bottom scope; op reads; all stored values and arguments" unwind=6
+h!(h_c01_reads_d3_010, 3, [false, true, false], 0, 6);
+// @h tier=thorough bound="depth 3, A present per scope (bottom..top) 010, B in the bottom scope; op insert; all stored values and arguments" unwind=6
+h!(h_c01_insert_d3_010, 3, [false, true, false], 1, 6);
+// @h tier=thorough bound="depth 3, A present per scope (bottom..top) 010, B in the bottom scope; op remove; all stored values and arguments" unwind=6
+h!(h_c01_remove_d3_010, 3, [false, true, false], 2, 6);
+// @h tier=thorough bound="depth 3, A present per scope (bottom..top) 010, B in the bottom scope; op set_value; all stored values and arguments" unwind=6
+h!(h_c01_set_value_d3_010, 3, [false, true, false], 3, 6);
+// @h tier=thorough bound="depth 3, A present per scope (bottom..top) 010, B in the bottom scope; op get_mut; all stored values and arguments" unwind=6
+h!(h_c01_get_mut_d3_010, 3, [false, true, false], 4, 6);
+// @h tier=thorough bound="depth 3, A present per scope (bottom..top) 010, B in the bottom scope; op and_modify_or_insert; all stored values and arguments" unwind=6
+h!(h_c01_and_modify_or_insert_d3_010, 3, [false, true, false], 5, 6);
+// @h tier=thorough bound="depth 3, A present per scope (bottom..top) 010, B in the bottom scope; op or_insert_with; all stored values and arguments" unwind=6
+h!(h_c01_or_insert_with_d3_010, 3, [false, true, false], 6, 6);
+// @h tier=thorough bound="depth 3, A present per scope (bottom..top) 010, B in the bottom scope; op or_default; all stored values and arguments" unwind=6
+h!(h_c01_or_default_d3_010, 3, [false, true, false], 7, 6);
+// @h tier=thorough bound="depth 3, A present per scope (bottom..top) 010, B in the bottom scope; op entry_insert; all stored values and arguments" unwind=6
+h!(h_c01_entry_insert_d3_010, 3, [false, true, false], 8, 6);
+// @h tier=thorough bound="depth 3, A present per scope (bottom..top) 010, B in the bottom scope; op entry_remove; all stored values and arguments" unwind=6
+h!(h_c01_entry_remove_d3_010, 3, [false, true, false], 9, 6);
+// @h tier=thorough bound="depth 3, A present per scope (bottom..top) 010, B in the bottom scope; op entry_access; all stored values and arguments" unwind=6
+h!(h_c01_entry_access_d3_010, 3, [false, true, false], 10, 6);
+// @h tier=thorough bound="depth 3, A present per scope (bottom..top) 010, B in the bottom scope; op push_scope; all stored values and arguments" unwind=6
+h!(h_c01_push_scope_d3_010, 3, [false, true, false], 11, 6);
+// @h tier=thorough bound="depth 3, A present per scope (bottom..top) 010, B in the bottom scope; op and_modify_value; all stored values and arguments" unwind=6
+h!(h_c01_and_modify_value_d3_010, 3, [false, true, false], 12, 6);
+// @h tier=thorough bound="depth 3, A present per scope (bottom..top) 011, B in the bottom scope; op reads; all stored values and arguments" unwind=6
+h!(h_c01_reads_d3_011, 3, [false, true, true], 0, 6);
+// @h tier=thorough bound="depth 3, A present per scope (bottom..top) 011, B in the bottom scope; op insert; all stored values and arguments" unwind=6
+h!(h_c01_insert_d3_011, 3, [false, true, true], 1, 6);
+// @h tier=thorough bound="depth 3, A present per scope (bottom..top) 011, B in the bottom scope; op remove; all stored values and arguments" unwind=6
+h!(h_c01_remove_d3_011, 3, [false, true, true], 2, 6);
+// @h tier=thorough bound="depth 3, A present per scope (bottom..top) 011, B in the bottom scope; op set_value; all stored values and arguments" unwind=6
+h!(h_c01_set_value_d3_011, 3, [false, true, true], 3, 6);
+// @h tier=thorough bound="depth 3, A present per scope (bottom..top) 011, B in the bottom scope; op get_mut; all stored values and arguments" unwind=6
+h!(h_c01_get_mut_d3_011, 3, [false, true, true], 4, 6);
+// @h tier=thorough bound="depth 3, A present per scope (bottom..top) 011, B in the bottom scope; op and_modify_or_insert; all stored values and arguments" unwind=6
+h!(h_c01_and_modify_or_insert_d3_011, 3, [false, true, true], 5, 6);
+// @h tier=thorough bound="depth 3, A present per scope (bottom..top) 011, B in the bottom scope; op or_insert_with; all stored values and arguments" unwind=6
+h!(h_c01_or_insert_with_d3_011, 3, [false, true, true], 6, 6);
+// @h tier=thorough bound="depth 3, A present per scope (bottom..top) 011, B in the bottom scope; op or_default; all stored values and arguments" unwind=6
+h!(h_c01_or_default_d3_011, 3, [false, true, true], 7, 6);
+// @h tier=thorough bound="depth 3, A present per scope (bottom..top) 011, B in the bottom scope; op entry_insert; all stored values and arguments" unwind=6
+h!(h_c01_entry_insert_d3_011, 3, [false, true, true], 8, 6);
+// @h tier=thorough bound="depth 3, A present per scope (bottom..top) 011, B in the bottom scope; op entry_remove; all stored values and arguments" unwind=6
+h!(h_c01_entry_remove_d3_011, 3, [false, true, true], 9, 6);
+// @h tier=thorough bound="depth 3, A present per scope (bottom..top) 011, B in the bottom scope; op entry_access; all stored values and arguments" unwind=6
+h!(h_c01_entry_access_d3_011, 3, [false, true, true], 10, 6);
+// @h tier=thorough bound="depth 3, A present per scope (bottom..top) 011, B in the bottom scope; op push_scope; all stored values and arguments" unwind=6
+h!(h_c01_push_scope_d3_011, 3, [false, true, true], 11, 6);
+// @h tier=thorough bound="depth 3, A present per scope (bottom..top) 011, B in the bottom scope; op and_modify_value; all stored values and arguments" unwind=6
+h!(h_c01_and_modify_value_d3_011, 3, [false, true, true], 12, 6);
+// @h tier=thorough bound="depth 3, A present per scope (bottom..top) 100, B in the bottom scope; op reads; all stored values and arguments" unwind=6
+h!(h_c01_reads_d3_100, 3, [true, false, false], 0, 6);
+// @h tier=thorough bound="depth 3, A present per scope (bottom..top) 100, B in the bottom scope; op insert; all stored values and arguments" unwind=6
+h!(h_c01_insert_d3_100, 3, [true, false, false], 1, 6);
+// @h tier=quick bound="depth 3, A present per scope (bottom..top) 100, B in the bottom scope; op remove; all stored values and arguments" unwind=6
+h!(h_c01_remove_d3_100, 3, [true, false, false], 2, 6);
+// @h tier=thorough bound="depth 3, A present per scope (bottom..top) 100, B in the bottom scope; op set_value; all stored values and arguments" unwind=6
+h!(h_c01_set_value_d3_100, 3, [true, false, false], 3, 6);
+// @h tier=quick bound="depth 3, A present per scope (bottom..top) 100, B in the bottom scope; op get_mut; all stored values and arguments" unwind=6
+h!(h_c01_get_mut_d3_100, 3, [true, false, false], 4, 6);
+// @h tier=quick bound="depth 3, A present per scope (bottom..top) 100, B in the bottom scope; op and_modify_or_insert; all stored values and arguments" unwind=6
+h!(h_c01_and_modify_or_insert_d3_100, 3, [true, false, false], 5, 6);
+// @h tier=thorough bound="depth 3, A present per scope (bottom..top) 100, B in the bottom scope; op or_insert_with; all stored values and arguments" unwind=6
+h!(h_c01_or_insert_with_d3_100, 3, [true, false, false], 6, 6);
+// @h tier=thorough bound="depth 3, A present per scope (bottom..top) 100, B in the bottom scope; op or_default; all stored values and arguments" unwind=6
+h!(h_c01_or_default_d3_100, 3, [true, false, false], 7, 6);
+// @h tier=quick bound="depth 3, A present per scope (bottom..top) 100, B in the bottom scope; op entry_insert; all stored values and arguments" unwind=6
+h!(h_c01_entry_insert_d3_100, 3, [true, false, false], 8, 6);
+// @h tier=thorough bound="depth 3, A present per scope (bottom..top) 100, B in the bottom scope; op entry_remove; all stored values and arguments" unwind=6
+h!(h_c01_entry_remove_d3_100, 3, [true, false, false], 9, 6);
+// @h tier=thorough bound="depth 3, A present per scope (bottom..top) 100, B in the bottom scope; op entry_access; all stored values and arguments" unwind=6
+h!(h_c01_entry_access_d3_100, 3, [true, false, false], 10, 6);
+// @h tier=thorough bound="depth 3, A present per scope (bottom..top) 100, B in the bottom scope; op push_scope; all stored values and arguments" unwind=6
+h!(h_c01_push_scope_d3_100, 3, [true, false, false], 11, 6);
+// @h tier=thorough bound="depth 3, A present per scope (bottom..top) 100, B in the bottom scope; op and_modify_value; all stored values and arguments" unwind=6
+h!(h_c01_and_modify_value_d3_100, 3, [true, false, false], 12, 6);
+// @h tier=thorough bound="depth 3, A present per scope (bottom..top) 101, B in the bottom scope; op reads; all stored values and arguments" unwind=6
+h!(h_c01_reads_d3_101, 3, [true, false, true], 0, 6);
+// @h tier=thorough bound="depth 3, A present per scope (bottom..top) 101, B in the bottom scope; op insert; all stored values and arguments" unwind=6
+h!(h_c01_insert_d3_101, 3, [true, false, true], 1, 6);
+// @h tier=thorough bound="depth 3, A present per scope (bottom..top) 101, B in the bottom scope; op remove; all stored values and arguments" unwind=6
+h!(h_c01_remove_d3_101, 3, [true, false, true], 2, 6);
+// @h tier=thorough bound="depth 3, A present per scope (bottom..top) 101, B in the bottom scope; op set_value; all stored values and arguments" unwind=6
+h!(h_c01_set_value_d3_101, 3, [true, false, true], 3, 6);
+// @h tier=thorough bound="depth 3, A present per scope (bottom..top) 101, B in the bottom scope; op get_mut; all stored values and arguments" unwind=6
+h!(h_c01_get_mut_d3_101, 3, [true, false, true], 4, 6);
+// @h tier=thorough bound="depth 3, A present per scope (bottom..top) 101, B in the bottom scope; op and_modify_or_insert; all stored values and arguments" unwind=6
+h!(h_c01_and_modify_or_insert_d3_101, 3, [true, false, true], 5, 6);
+// @h tier=thorough bound="depth 3, A present per scope (bottom..top) 101, B in the bottom scope; op or_insert_with; all stored values and arguments" unwind=6
+h!(h_c01_or_insert_with_d3_101, 3, [true, false, true], 6, 6);
+// @h tier=thorough bound="depth 3, A present per scope (bottom..top) 101, B in the bottom scope; op or_default; all stored values and arguments" unwind=6
+h!(h_c01_or_default_d3_101, 3, [true, false, true], 7, 6);
+// @h tier=thorough bound="depth 3, A present per scope (bottom..top) 101, B in the bottom scope; op entry_insert; all stored values and arguments" unwind=6
+h!(h_c01_entry_insert_d3_101, 3, [true, false, true], 8, 6);
+// @h tier=thorough bound="depth 3, A present per scope (bottom..top) 101, B in the bottom scope; op entry_remove; all stored values and arguments" unwind=6
+h!(h_c01_entry_remove_d3_101, 3, [true, false, true], 9, 6);
+// @h tier=thorough bound="depth 3, A present per scope (bottom..top) 101, B in the bottom scope; op entry_access; all stored values and arguments" unwind=6
+h!(h_c01_entry_access_d3_101, 3, [true, false, true], 10, 6);
+// @h tier=thorough bound="depth 3, A present per scope (bottom..top) 101, B in the bottom scope; op push_scope; all stored values and arguments" unwind=6
+h!(h_c01_push_scope_d3_101, 3, [true, false, true], 11, 6);
+// @h tier=thorough bound="depth 3, A present per scope (bottom..top) 101, B in the bottom scope; op and_modify_value; all stored values and arguments" unwind=6
+h!(h_c01_and_modify_value_d3_101, 3, [true, false, true], 12, 6);
+// @h tier=thorough bound="depth 3, A present per scope (bottom..top) 110, B in the bottom scope; op reads; all stored values and arguments" unwind=6
+h!(h_c01_reads_d3_110, 3, [true, true, false], 0, 6);
+// @h tier=thorough bound="depth 3, A present per scope (bottom..top) 110, B in the bottom scope; op insert; all stored values and arguments" unwind=6
+h!(h_c01_insert_d3_110, 3, [true, true, false], 1, 6);
+// @h tier=thorough bound="depth 3, A present per scope (bottom..top) 110, B in the bottom scope; op remove; all stored values and arguments" unwind=6
+h!(h_c01_remove_d3_110, 3, [true, true, false], 2, 6);
+// @h tier=thorough bound="depth 3, A present per scope (bottom..top) 110, B in the bottom scope; op set_value; all stored values and arguments" unwind=6
+h!(h_c01_set_value_d3_110, 3, [true, true, false], 3, 6);
+// @h tier=thorough bound="depth 3, A present per scope (bottom..top) 110, B in the bottom scope; op get_mut; all stored values and arguments" unwind=6
+h!(h_c01_get_mut_d3_110, 3, [true, true, false], 4, 6);
+// @h tier=thorough bound="depth 3, A present per scope (bottom..top) 110, B in the bottom scope; op and_modify_or_insert; all stored values and arguments" unwind=6
+h!(h_c01_and_modify_or_insert_d3_110, 3, [true, true, false], 5, 6);
+// @h tier=thorough bound="depth 3, A present per scope (bottom..top) 110, B in the bottom scope; op or_insert_with; all stored values and arguments" unwind=6
+h!(h_c01_or_insert_with_d3_110, 3, [true, true, false], 6, 6);
+// @h tier=thorough bound="depth 3, A present per scope (bottom..top) 110, B in the bottom scope; op or_default; all stored values and arguments" unwind=6
+h!(h_c01_or_default_d3_110, 3, [true, true, false], 7, 6);
+// @h tier=thorough bound="depth 3, A present per scope (bottom..top) 110, B in the bottom scope; op entry_insert; all stored values and arguments" unwind=6
+h!(h_c01_entry_insert_d3_110, 3, [true, true, false], 8, 6);
+// @h tier=thorough bound="depth 3, A present per scope (bottom..top) 110, B in the bottom scope; op entry_remove; all stored values and arguments" unwind=6
+h!(h_c01_entry_remove_d3_110, 3, [true, true, false], 9, 6);
+// @h tier=thorough bound="depth 3, A present per scope (bottom..top) 110, B in the bottom scope; op entry_access; all stored values and arguments" unwind=6
+h!(h_c01_entry_access_d3_110, 3, [true, true, false], 10, 6);
+// @h tier=thorough bound="depth 3, A present per scope (bottom..top) 110, B in the bottom scope; op push_scope; all stored values and arguments" unwind=6
+h!(h_c01_push_scope_d3_110, 3, [true, true, false], 11, 6);
+// @h tier=thorough bound="depth 3, A present per scope (bottom..top) 110, B in the bottom scope; op and_modify_value; all stored values and arguments" unwind=6
+h!(h_c01_and_modify_value_d3_110, 3, [true, true, false], 12, 6);
+// @h tier=thorough bound="depth 3, A present per scope (bottom..top) 111, B in the bottom scope; op reads; all stored values and arguments" unwind=6
+h!(h_c01_reads_d3_111, 3, [true, true, true], 0, 6);
+// @h tier=thorough bound="depth 3, A present per scope (bottom..top) 111, B in the bottom scope; op insert; all stored values and arguments" unwind=6
+h!(h_c01_insert_d3_111, 3, [true, true, true], 1, 6);
+// @h tier=quick bound="depth 3, A present per scope (bottom..top) 111, B in the bottom scope; op remove; all stored values and arguments" unwind=6
+h!(h_c01_remove_d3_111, 3, [true, true, true], 2, 6);
+// @h tier=thorough bound="depth 3, A present per scope (bottom..top) 111, B in the bottom scope; op set_value; all stored values and arguments" unwind=6
+h!(h_c01_set_value_d3_111, 3, [true, true, true], 3, 6);
+// @h tier=quick bound="depth 3, A present per scope (bottom..top) 111, B in the bottom scope; op get_mut; all stored values and arguments" unwind=6
+h!(h_c01_get_mut_d3_111, 3, [true, true, true], 4, 6);
+// @h tier=quick bound="depth 3, A present per scope (bottom..top) 111, B in the bottom scope; op and_modify_or_insert; all stored values and arguments" unwind=6
+h!(h_c01_and_modify_or_insert_d3_111, 3, [true, true, true], 5, 6);
+// @h tier=thorough bound="depth 3, A present per scope (bottom..top) 111, B in the bottom scope; op or_insert_with; all stored values and arguments" unwind=6
+h!(h_c01_or_insert_with_d3_111, 3, [true, true, true], 6, 6);
+// @h tier=thorough bound="depth 3, A present per scope (bottom..top) 111, B in the bottom scope; op or_default; all stored values and arguments" unwind=6
+h!(h_c01_or_default_d3_111, 3, [true, true, true], 7, 6);
+// @h tier=quick bound="depth 3, A present per scope (bottom..top) 111, B in the bottom scope; op entry_insert; all stored values and arguments" unwind=6
+h!(h_c01_entry_insert_d3_111, 3, [true, true, true], 8, 6);
+// @h tier=thorough bound="depth 3, A present per scope (bottom..top) 111, B in the bottom scope; op entry_remove; all stored values and arguments" unwind=6
+h!(h_c01_entry_remove_d3_111, 3, [true, true, true], 9, 6);
+// @h tier=thorough bound="depth 3, A present per scope (bottom..top) 111, B in the bottom scope; op entry_access; all stored values and arguments" unwind=6
+h!(h_c01_entry_access_d3_111, 3, [true, true, true], 10, 6);
+// @h tier=thorough bound="depth 3, A present per scope (bottom..top) 111, B in the bottom scope; op push_scope; all stored values and arguments" unwind=6
+h!(h_c01_push_scope_d3_111, 3, [true, true, true], 11, 6);
+// @h tier=thorough bound="depth 3, A present per scope (bottom..top) 111, B in the bottom scope; op and_modify_value; all stored values and arguments" unwind=6
+h!(h_c01_and_modify_value_d3_111, 3, [true, true, true], 12, 6);
